@@ -4,6 +4,10 @@
 
 Checked on the returned vectors only (no oracle for the numerical estimates themselves): one finite value per
 PSM, range, monotone in the score, equal on ties, and alignment = permuting the input permutes the output.
+
+The last clause of the property ("so the PEP column of every result file is aligned with its row") is checked on
+the files written by assign_confidence (check pep_column_of_result_files), for a higher-is-better score
+(descs=[True]) and a lower-is-better score (descs=[False]).
 """
 import os
 
@@ -16,8 +20,10 @@ import multiprocessing as mp                  # noqa: E402
 import warnings                               # noqa: E402
 
 import numpy as np                            # noqa: E402
+import pandas as pd                           # noqa: E402
 
 from harness.common import Check, args, emit  # noqa: E402
+from harness.datasets import make_ds, scratch, small_df   # noqa: E402
 
 warnings.filterwarnings("ignore")
 logging.disable(logging.CRITICAL)
@@ -25,6 +31,14 @@ logging.disable(logging.CRITICAL)
 TOL = 1e-9
 PEP_ALGS = ("qvality", "kde_nnls", "hist_nnls")
 Q_ALGS = ("from_counts", "from_peps")
+FILE_CHECK = "pep_column_of_result_files"
+FILE_ALGS = ("qvality", "kde_nnls")            # hist_nnls cannot run under the installed SciPy
+FILE_SHAPES = ("one-psm-per-spectrum", "two-psms-per-spectrum", "one-psm-per-spectrum-ties",
+               "two-psms-per-spectrum-ties")
+# triqler's qvality needs up to 30 s per call for 300..500 distinct scores: not run on the large shape without ties
+FILE_SKIP = {("two-psms-per-spectrum", "qvality")}
+FILE_LEVELS = ("psms", "peptides")
+MIN_ROWS = 50                                  # a level is judged if both its files have >= 50 rows (property domain)
 
 
 def _freeze(ck):
@@ -141,6 +155,121 @@ def runnable(est):
         return True, None
 
 
+# ----------------------------------------------------------------------------------------------------------
+# the PEP column of the result files written by assign_confidence
+def gen_file_case(seed, k, shape):
+    """A PIN-like table (harness.datasets.small_df: f0 separates targets from decoys). Shapes without ties: 120..200
+    spectra with one PSM each, or 400..600 spectra with two competing PSMs each; shapes with ties: 240..400 / 400..600
+    spectra and f0 rounded to one decimal. Returns (table, f0)."""
+    rng = np.random.default_rng([seed, k, 606])
+    dup = 2 if shape.startswith("two") else 1
+    lo, hi = (400, 600) if dup == 2 else (240, 400) if shape.endswith("ties") else (120, 200)
+    n_spec = int(rng.integers(lo, hi + 1))
+    n_pep = int(n_spec * dup * 0.8)
+    n_pep += n_pep % 7 == 0                     # small_df strides the peptide ids by 7: keep all n_pep ids reachable
+    df = small_df(n_spec=n_spec, dup=dup, seed=[seed, k, 607], n_pep=n_pep)
+    if shape.endswith("ties"):
+        df["f0"] = df["f0"].round(1)
+    return df, df["f0"].to_numpy(dtype=float)
+
+
+def judge_files(seed, k, shape, desc, alg):
+    """Run the real assign_confidence (deduplication on, decoys=True) with the informative feature (desc=True) or
+    its negation, a lower-is-better score (desc=False), and read the written files back.
+    Returns (list of (class id, what), non-trivial?, meta)."""
+    from mokapot import assign_confidence
+    import mokapot.peps as peps
+    df, f0 = gen_file_case(seed, k, shape)
+    score = f0 if desc else -f0
+    tag = "desc-true" if desc else "desc-false"
+    found, nontrivial, judged, meta = [], False, 0, {"n_psms_in": int(len(df))}
+    with scratch("h06_") as d:
+        ds = make_ds(df, d / "in.pin")
+        out = d / "out"
+        out.mkdir()
+        try:
+            assign_confidence([ds], max_workers=1, scores=[score.copy()], descs=[desc], dest_dir=out,
+                              prefixes=[None], decoys=True, eval_fdr=0.05, deduplication=True,
+                              peps_algorithm=alg)
+        except BaseException as e:                       # noqa: BLE001  (triqler may call sys.exit)
+            return [("result-file-exception:%s/%s" % (type(e).__name__, tag), str(e)[:160])], False, meta
+        for level in FILE_LEVELS:
+            parts = []
+            for kind in ("targets", "decoys"):
+                f = out / ("%s.%s" % (kind, level))
+                try:
+                    t = pd.read_csv(f, sep="\t")
+                    t = t[["score", "posterior_error_prob"]].assign(is_target=(kind == "targets"))
+                except Exception as e:                   # noqa: BLE001
+                    found.append(("result-file-unreadable/" + tag, "%s.%s: %s: %s"
+                                  % (kind, level, type(e).__name__, str(e)[:120])))
+                    continue
+                parts.append(t)
+            if len(parts) < 2:
+                continue
+            al = pd.concat(parts, ignore_index=True)
+            meta[level] = {"targets": int(len(parts[0])), "decoys": int(len(parts[1]))}
+            if len(parts[0]) == 0 or len(parts[1]) == 0:
+                found.append(("result-file-empty/" + tag, "no rows in targets.%s or decoys.%s" % (level, level)))
+                continue
+            if min(len(parts[0]), len(parts[1])) < MIN_ROWS:     # outside the quantifier domain of the property
+                meta[level]["judged"] = False
+                continue
+            judged += 1
+            s = pd.to_numeric(al["score"], errors="coerce").to_numpy(dtype=float)
+            p = pd.to_numeric(al["posterior_error_prob"], errors="coerce").to_numpy(dtype=float)
+            lab = al["is_target"].to_numpy(dtype=bool)
+            if not np.all(np.isfinite(p)):
+                found.append(("result-file-pep-non-finite/" + tag, "%s: %d of %d written PEPs are not finite"
+                              % (level, int((~np.isfinite(p)).sum()), len(p))))
+                continue
+            if p.min() < 0 or p.max() > 1:
+                found.append(("result-file-pep-out-of-range/" + tag, "%s: written PEPs span [%r, %r]"
+                              % (level, float(p.min()), float(p.max()))))
+            if len(np.unique(p)) > 1:
+                nontrivial = True                        # (only levels inside the domain get here)
+            # the written score column is the score as passed in; higher is better iff desc
+            better = s if desc else -s
+            o = np.argsort(-better, kind="stable")           # best first
+            ps, so = p[o], s[o]
+            worse = ps[1:] < ps[:-1] - TOL
+            if np.any(worse):
+                i = int(np.argmax(worse))
+                found.append(("result-file-pep-not-monotone/" + tag,
+                              "%s (targets+decoys files): the written PEP drops %d times as the written score worsens, "
+                              "e.g. from %r to %r as the score goes from %r to %r; best row (score %r) has PEP %r, "
+                              "worst row (score %r) has PEP %r"
+                              % (level, int(worse.sum()), float(ps[i]), float(ps[i + 1]), float(so[i]),
+                                 float(so[i + 1]), float(so[0]), float(ps[0]), float(so[-1]), float(ps[-1]))))
+            # alignment: the PEP the estimator assigns to this row's sign-corrected score among exactly these rows
+            try:
+                want = np.asarray(peps.peps_from_scores(better.copy(), lab.copy(), alg), dtype=float)
+            except BaseException as e:                   # noqa: BLE001
+                found.append(("result-file-recompute-exception:%s/%s" % (type(e).__name__, tag),
+                              "%s: %s" % (level, str(e)[:120])))
+                continue
+            bad = ~_same(p, want)
+            if np.any(bad):
+                i = int(np.argmax(bad))
+                found.append(("result-file-pep-misaligned/" + tag,
+                              "%s: %d of %d rows do not carry the PEP that peps_from_scores(%s) gives their own "
+                              "(sign-corrected) score among the rows of the level, max |diff| %.3g; e.g. the %s row "
+                              "with score %r has PEP %r, recomputed %r"
+                              % (level, int(bad.sum()), len(bad), alg, float(np.max(np.abs(p - want))),
+                                 "target" if lab[i] else "decoy", float(s[i]), float(p[i]), float(want[i]))))
+    meta["levels_judged"] = judged
+    return found, nontrivial, meta
+
+
+def _work_files(job):
+    seed, k, shape, desc, alg = job
+    return ("files", job) + judge_files(seed, k, shape, desc, alg)
+
+
+def _dispatch(job):
+    return _work_files(job[1]) if job[0] == "files" else _work(job[1])
+
+
 def run(tier, seed):
     n_cases = 60 if tier == "quick" else 600
     assumptions = ["no oracle for the numerical value of a PEP / q-value (KDE, splines, NNLS): only finiteness, range, "
@@ -170,9 +299,42 @@ def run(tier, seed):
               "rounded to 0.01 / best PSM is a decoy)")
     # one job per (case, estimator); the slow estimator (qvality: 0.02 .. 5 s per call) is scheduled first
     hi = 130 if tier == "quick" else 260
-    jobs = [(seed, k, tier != "quick" and k % 4 == 0, hi, est) for est in ests for k in range(n_cases)]
+    jobs = [("est", (seed, k, tier != "quick" and k % 4 == 0, hi, est)) for est in ests for k in range(n_cases)]
+    # the result files of assign_confidence: n_file data sets x 3 shapes x desc x 2 PEP algorithms
+    n_file = 5 if tier == "quick" else 40
+    file_jobs = [("files", (seed, k, shape, desc, alg)) for alg in FILE_ALGS for k in range(n_file)
+                 for shape in FILE_SHAPES for desc in (True, False) if (shape, alg) not in FILE_SKIP]
+    n_slow = sum(j[1][4] == "qvality" for j in file_jobs)          # scheduled first
+    fck = Check(
+        FILE_CHECK, "mokapot.confidence.assign_confidence -> targets/decoys .psms/.peptides (posterior_error_prob)",
+        "random: %d tables (seed %d, table k uses numpy seeds [seed, k, 606/607]) in 4 shapes (120..200 spectra with "
+        "one PSM each / 400..600 spectra with two competing PSMs each / 240..400 spectra, one PSM each, f0 rounded to "
+        "0.1 / 400..600 spectra, two PSMs each, f0 rounded to 0.1), each run with descs=[True] on f0 and descs=[False] "
+        "on -f0, peps_algorithm kde_nnls (all shapes) and qvality (all but the second shape: too slow), deduplication "
+        "on, decoys=True: %d runs, 4 files each; a level is judged when both its files have >= %d rows"
+        % (n_file * len(FILE_SHAPES), seed, len(file_jobs), MIN_ROWS),
+        "per level (targets+decoys file together): every written PEP finite and in [0,1]; the written PEP never "
+        "decreases as the written score worsens (score falls for desc=True, rises for desc=False); the PEP of a row "
+        "equals, within 1e-9, what peps_from_scores assigns to that row's sign-corrected score when called on exactly "
+        "the rows of the level. Which rows are in the files and their q-values are NOT checked (C07). non-trivial = "
+        "the PEP column of at least one level takes more than one value, so its orientation is observable")
+    assumptions.append("%s: the recomputation calls mokapot.peps.peps_from_scores itself (no independent PEP oracle), "
+                       "so this check sees misalignment / wrong orientation between the files and the estimator, not "
+                       "errors of the estimator (those are the pep_* checks); with descs=[False] the rows chosen by "
+                       "deduplication and the q-values follow the high-score-first ranking (property C07) and are not "
+                       "judged here" % FILE_CHECK)
     with mp.get_context("fork").Pool(8) as pool:
-        results = pool.map(_work, jobs, chunksize=1)
+        allres = pool.map(_dispatch, file_jobs[:n_slow] + jobs + file_jobs[n_slow:], chunksize=1)
+    results = [r for r in allres if r[0] != "files"]
+    fseen = set()
+    for _, job, found, nontrivial, meta in [r for r in allres if r[0] == "files"]:
+        _, k, shape, desc, alg = job
+        fck.case((seed, k, shape, desc, alg), nontrivial=nontrivial)
+        for cid, what in found:
+            if cid not in fseen:
+                fseen.add(cid)
+                fck.violation(cid, what, {"seed": seed, "k": k, "shape": shape, "desc": desc, "peps_algorithm": alg,
+                                          **meta})
     seen = set()
     for k, meta, ties, est, (cid, what) in sorted(results, key=lambda r: (r[0], r[3])):
         if True:
@@ -182,13 +344,18 @@ def run(tier, seed):
                 seen.add((est, cid))
                 ck.violation(cid, what, {"seed": seed, "k": k, "big": tier != "quick" and k % 4 == 0, "hi": hi,
                                          "estimator": est, **meta})
-    return [_freeze(c) for c in checks.values()], assumptions
+    return [_freeze(c) for c in list(checks.values()) + [fck]], assumptions
 
 
 def REPLAY(check_name, violation):
     inp = violation["input"]
     if isinstance(inp, str):
         inp = json.loads(inp)
+    if check_name == FILE_CHECK:
+        found, _, _ = judge_files(inp["seed"], inp["k"], inp["shape"], inp["desc"], inp["peps_algorithm"])
+        same = [f for f in found if f[0] == violation.get("case")] or found
+        return {"violated": bool(found), "case": same[0][0] if same else None,
+                "detail": same[0][1] if same else None, "all_cases": [f[0] for f in found]}
     s, lab, perm, _ = gen_case(inp["seed"], inp["k"], inp.get("big", False), inp.get("hi", 130))
     cid, what = judge(inp["estimator"], s, lab, perm)
     return {"violated": cid is not None, "case": cid, "detail": what}
